@@ -3285,11 +3285,12 @@ fn get_discovered_reader_incompatible_qos_policy_list(
     if &writer_qos.durability < discovered_reader_data.durability() {
         incompatible_qos_policy_list.push(DURABILITY_QOS_POLICY_ID);
     }
+    // Requested coherent/ordered access must be offered; offering more than requested is compatible
     if publisher_qos.presentation.access_scope < discovered_reader_data.presentation().access_scope
-        || publisher_qos.presentation.coherent_access
-            != discovered_reader_data.presentation().coherent_access
-        || publisher_qos.presentation.ordered_access
-            != discovered_reader_data.presentation().ordered_access
+        || (discovered_reader_data.presentation().coherent_access
+            && !publisher_qos.presentation.coherent_access)
+        || (discovered_reader_data.presentation().ordered_access
+            && !publisher_qos.presentation.ordered_access)
     {
         incompatible_qos_policy_list.push(PRESENTATION_QOS_POLICY_ID);
     }
@@ -3299,7 +3300,11 @@ fn get_discovered_reader_incompatible_qos_policy_list(
     if &writer_qos.latency_budget > discovered_reader_data.latency_budget() {
         incompatible_qos_policy_list.push(LATENCYBUDGET_QOS_POLICY_ID);
     }
-    if &writer_qos.liveliness < discovered_reader_data.liveliness() {
+    // Offered kind must be at least the requested kind and the offered lease at most the requested lease
+    if writer_qos.liveliness.kind < discovered_reader_data.liveliness().kind
+        || writer_qos.liveliness.lease_duration
+            > discovered_reader_data.liveliness().lease_duration
+    {
         incompatible_qos_policy_list.push(LIVELINESS_QOS_POLICY_ID);
     }
     if writer_qos.reliability.kind < discovered_reader_data.reliability().kind {
@@ -3338,14 +3343,15 @@ fn get_discovered_writer_incompatible_qos_policy_list(
 ) -> Vec<QosPolicyId> {
     let mut incompatible_qos_policy_list = Vec::new();
 
+    // Requested coherent/ordered access must be offered; offering more than requested is compatible
     if subscriber_qos.presentation.access_scope
         > publication_builtin_topic_data.presentation().access_scope
-        || subscriber_qos.presentation.coherent_access
-            != publication_builtin_topic_data
+        || (subscriber_qos.presentation.coherent_access
+            && !publication_builtin_topic_data
                 .presentation()
-                .coherent_access
-        || subscriber_qos.presentation.ordered_access
-            != publication_builtin_topic_data.presentation().ordered_access
+                .coherent_access)
+        || (subscriber_qos.presentation.ordered_access
+            && !publication_builtin_topic_data.presentation().ordered_access)
     {
         incompatible_qos_policy_list.push(PRESENTATION_QOS_POLICY_ID);
     }
@@ -3358,7 +3364,11 @@ fn get_discovered_writer_incompatible_qos_policy_list(
     if &data_reader.qos.latency_budget < publication_builtin_topic_data.latency_budget() {
         incompatible_qos_policy_list.push(LATENCYBUDGET_QOS_POLICY_ID);
     }
-    if &data_reader.qos.liveliness > publication_builtin_topic_data.liveliness() {
+    // Offered kind must be at least the requested kind and the offered lease at most the requested lease
+    if data_reader.qos.liveliness.kind > publication_builtin_topic_data.liveliness().kind
+        || data_reader.qos.liveliness.lease_duration
+            < publication_builtin_topic_data.liveliness().lease_duration
+    {
         incompatible_qos_policy_list.push(LIVELINESS_QOS_POLICY_ID);
     }
     if data_reader.qos.reliability.kind > publication_builtin_topic_data.reliability().kind {
